@@ -70,13 +70,13 @@ theorem swapList_aligned (l : List DNA) (i j : Nat) (h : alignedFrom 0 l = true)
       · simpa using entryAligned_rebindEntry j a
 
 mutual
-  theorem swapAt_aligned : ∀ (d : DNA) (g : GSpec) (coll : Bool) (c i j : Nat),
-      aligned d = true → aligned (swapAt g coll d c i j) = true
+  theorem swapAt_aligned (w : Where) : ∀ (d : DNA) (g : GSpec) (coll : Bool) (c i j : Nat),
+      aligned d = true → aligned (swapAt w g coll d c i j) = true
     | .space ds, g, coll, c, i, j, ha => by
         cases g with
         | space es =>
           simp only [swapAt, aligned] at ha ⊢
-          exact swapAtElems_aligned ds es _ c i j ha
+          exact swapAtElems_aligned w ds es _ c i j ha
         | choices k cands dist srt => simpa [swapAt] using ha
         | float lo hi => simpa [swapAt] using ha
     | .choices subs, g, coll, c, i, j, ha => by
@@ -93,13 +93,13 @@ mutual
               simp only [Bool.false_eq_true, if_false, aligned]
               exact swapList_aligned subs i j ha
           · simp only [aligned]
-            exact swapAtSubs_aligned subs cands _ i j 0 ha
+            exact swapAtSubs_aligned w subs cands _ i j 0 ha
     | .float v, g, coll, c, i, j, ha => by
         cases g <;> simpa [swapAt] using ha
     | .sub b v d, g, coll, c, i, j, ha => by
         cases g <;> simpa [swapAt] using ha
-  theorem swapAtElems_aligned : ∀ (ds : List DNA) (es : List GSpec) (cl : Bool) (c i j : Nat),
-      alignedAll ds = true → alignedAll (swapAtElems es cl ds c i j) = true
+  theorem swapAtElems_aligned (w : Where) : ∀ (ds : List DNA) (es : List GSpec) (cl : Bool) (c i j : Nat),
+      alignedAll ds = true → alignedAll (swapAtElems w es cl ds c i j) = true
     | [], es, cl, c, i, j, ha => by
         cases es <;> simpa [swapAtElems] using ha
     | d :: ds, es, cl, c, i, j, ha => by
@@ -110,11 +110,11 @@ mutual
           simp only [swapAtElems]
           split
           · simp only [alignedAll, Bool.and_eq_true]
-            exact ⟨swapAt_aligned d e cl c i j ha.1, ha.2⟩
+            exact ⟨swapAt_aligned w d e cl c i j ha.1, ha.2⟩
           · simp only [alignedAll, Bool.and_eq_true]
-            exact ⟨ha.1, swapAtElems_aligned ds es cl _ i j ha.2⟩
-  theorem swapAtSubs_aligned : ∀ (subs : List DNA) (cands : List GSpec) (c i j k : Nat),
-      alignedFrom k subs = true → alignedFrom k (swapAtSubs cands subs c i j) = true
+            exact ⟨ha.1, swapAtElems_aligned w ds es cl _ i j ha.2⟩
+  theorem swapAtSubs_aligned (w : Where) : ∀ (subs : List DNA) (cands : List GSpec) (c i j k : Nat),
+      alignedFrom k subs = true → alignedFrom k (swapAtSubs w cands subs c i j) = true
     | [], cands, c, i, j, k, ha => by simpa [swapAtSubs] using ha
     | .space x :: rest, cands, c, i, j, k, ha => by simpa [swapAtSubs] using ha
     | .choices x :: rest, cands, c, i, j, k, ha => by simpa [swapAtSubs] using ha
@@ -128,17 +128,17 @@ mutual
           simp only []
           split
           · simp only [alignedFrom, Bool.and_eq_true, decide_eq_true_eq]
-            exact ⟨⟨ha.1.1, swapAt_aligned d cs true c i j ha.1.2⟩, ha.2⟩
+            exact ⟨⟨ha.1.1, swapAt_aligned w d cs true c i j ha.1.2⟩, ha.2⟩
           · simp only [alignedFrom, Bool.and_eq_true, decide_eq_true_eq]
-            exact ⟨ha.1, swapAtSubs_aligned rest cands _ i j (k + 1) ha.2⟩
+            exact ⟨ha.1, swapAtSubs_aligned w rest cands _ i j (k + 1) ha.2⟩
 end
 
-theorem mutSwapOne_aligned (g : GSpec) (d : DNA) (s : St) (d' : DNA) (s' : St)
-    (ha : aligned d = true) (h : mutSwapOne g d s = .ok (d', s')) : aligned d' = true := by
+theorem mutSwapOne_aligned (w : Where) (g : GSpec) (d : DNA) (s : St) (d' : DNA) (s' : St)
+    (ha : aligned d = true) (h : mutSwapOne w g d s = .ok (d', s')) : aligned d' = true := by
   simp only [mutSwapOne] at h
   rw [bind_ok] at h
   obtain ⟨perm, s1, h1, h2⟩ := h
-  generalize findFirstUnsorted (swapCands g false d) perm = r at h2
+  generalize findFirstUnsorted (swapCands w g false d) perm = r at h2
   cases r with
   | none =>
     simp only [] at h2
@@ -156,19 +156,24 @@ theorem mutSwapOne_aligned (g : GSpec) (d : DNA) (s : St) (d' : DNA) (s' : St)
     · simp only [] at h4
       rw [pure_ok] at h4
       obtain ⟨rfl, rfl⟩ := h4
-      exact swapAt_aligned d g false _ _ _ ha
+      exact swapAt_aligned w d g false _ _ _ ha
     · exact ((fail_ok _ _ _).mp h4).elim
 
-theorem mutSwap_aligned (g : GSpec) (pop : Pop) (st : St) (out : Pop) (st' : St)
-    (hp : ∀ x ∈ pop, valid g x.dna = true ∧ aligned x.dna = true) (h : mutSwap g pop st = .ok (out, st')) :
+theorem mutSwapW_aligned (w : Where) (g : GSpec) (pop : Pop) (st : St) (out : Pop) (st' : St)
+    (hp : ∀ x ∈ pop, valid g x.dna = true ∧ aligned x.dna = true) (h : mutSwapW w g pop st = .ok (out, st')) :
     ∀ y ∈ out, valid g y.dna = true ∧ aligned y.dna = true := by
-  simp only [mutSwap] at h
-  obtain ⟨_, hall⟩ := mapChild_spec (mutSwapOne g) (fun _ d' => valid g d' = true ∧ aligned d' = true) pop
+  simp only [mutSwapW] at h
+  obtain ⟨_, hall⟩ := mapChild_spec (mutSwapOne w g) (fun _ d' => valid g d' = true ∧ aligned d' = true) pop
     (fun x hx s d' s' hd => by
-      obtain ⟨hv, hu⟩ := mutSwapOne_spec g x.dna s d' s' (hp x hx).1 hd
-      exact ⟨⟨hv, mutSwapOne_aligned g x.dna s d' s' (hp x hx).2 hd⟩, hu⟩) st out st' h
+      obtain ⟨hv, hu⟩ := mutSwapOne_spec w g x.dna s d' s' (hp x hx).1 hd
+      exact ⟨⟨hv, mutSwapOne_aligned w g x.dna s d' s' (hp x hx).2 hd⟩, hu⟩) st out st' h
   intro y hy
   obtain ⟨x, _, hr⟩ := all2_out hall y hy
   exact hr.1
+
+theorem mutSwap_aligned (g : GSpec) (pop : Pop) (st : St) (out : Pop) (st' : St)
+    (hp : ∀ x ∈ pop, valid g x.dna = true ∧ aligned x.dna = true) (h : mutSwap g pop st = .ok (out, st')) :
+    ∀ y ∈ out, valid g y.dna = true ∧ aligned y.dna = true :=
+  mutSwapW_aligned _ g pop st out st' hp h
 
 end Pg.C14
